@@ -548,7 +548,7 @@ func (g *gen) shareProb() float64 {
 	switch g.mode {
 	case "c01", "c04":
 		return 0
-	case "c02":
+	case "c02", "c09":
 		return 0.95
 	}
 	return 0.8
@@ -979,7 +979,8 @@ func (g *gen) makePattern() (*pattern, bool) {
 				e = g.pick("h(a...)", "h(a, b...)", "h(a, b)", "func() { type T = int }", "func() { type T int }",
 					"func() { var (q int) }", "func() { var q int }", "make(<-chan int)", "make(chan int)",
 					"func(xs ...int) {}", "func(xs []int) {}", "new(func() (int))", "new(func() int)",
-					"new(struct{ a, b int })", "new(interface{ M() })", "x.(type2)", "s[1:2:3]", "s[1:2]")
+					"new(struct{ a, b int })", "new(interface{ M() })", "x.(type2)", "s[1:2:3]", "s[1:2]",
+					"f(\"x\")", "f(`raw`, 1)", "g(0x1f)", "h('c', 1e3)", "f(\"a b\")", "k(1.5)")
 			}
 			frag = g.pick("foo("+e+", "+e+")", e+" == "+e, "g("+e+", h("+e+"))", "T{A: "+e+", B: "+e+"}",
 				e+".Do("+e+")", "bar("+e+", 1, "+e+")", "f(func() int { return "+e+" }, "+e+")")
@@ -1219,6 +1220,16 @@ func wrapForParse(k fragKind, frag string) string {
 // structMutate changes the fragment by one structural token: an extra or a
 // missing argument, variadic "...", alias "=", channel direction, a label.
 func (g *gen) structMutate(t string) string {
+	if g.chance(0.3) {
+		// the same value spelled differently: equal for the compiler, not syntactically identical
+		type re2 struct{ from, to string }
+		for _, r := range []re2{{"\"x\"", "`x`"}, {"\"hello\"", "`hello`"}, {"\"a b\"", "\"a\\x20b\""}, {"`raw`", "\"raw\""}, {"\"s\"", "`s`"},
+			{"0x1f", "31"}, {"1e3", "1000.0"}, {"'c'", "'\\x63'"}, {"1.5", "1.50"}, {"\"%d\"", "`%d`"}, {"\"\"", "``"}} {
+			if strings.Contains(t, r.from) {
+				return strings.Replace(t, r.from, r.to, 1)
+			}
+		}
+	}
 	type tog struct{ from, to string }
 	togs := []tog{{"...)", ")"}, {" = int", " int"}, {"<-chan ", "chan "}, {"chan<- ", "chan "}, {"chan ", "<-chan "},
 		{"()", "(extra)"}, {", ", ", extra, "}, {"break L0", "break"}, {"continue L0", "continue"}, {"break\n", "break L0\n"},
